@@ -256,7 +256,9 @@ def mutate_case(rng, case):
 # systematic sweep: every request kind x every kind of misbehaviour of the answering backend
 
 
-def sweep_cases():
+def sweep_cases(pairs=False):
+    """pairs=False: one misbehaving backend; pairs=True (thorough tier): every pair of
+    misbehaviours of the two backends for the requests that involve both."""
     T = lambda i, u=True: ["track", i, u]  # noqa: E731
     faults = [["raise", k] for k in KINDS] + [
         ["none"], ["wrong"], ["map", []], ["list", []], ["bool", True], ["bool", False], ["int", 1], ["int", 0],
@@ -305,6 +307,21 @@ def sweep_cases():
             out.append({"backends": [{"schemes": ["a", "c"], **flags, "answers": a},
                                      {"schemes": ["b"], **flags, "answers": dict(good_b)}],
                         "mixer": None, "op": copy.deepcopy(op)})
+    if pairs:
+        out = []
+        faults_b = faults + [["map", [["a:1", [T(2009)]]]], ["map", [["b:1", [T(2001)]], ["a:1", [T(2009)]]]],
+                             ["map", [["b:1", [["image", 2001, True]]], ["a:1", [["image", 2009, True]]]]]]
+        for op, method in ops:
+            if method not in good_b:
+                continue
+            for fa in [good[method]] + faults:
+                for fb in [good_b[method]] + faults_b:
+                    a, b = dict(good), dict(good_b)
+                    a[method], b[method] = fa, fb
+                    out.append({"backends": [{"schemes": ["a", "c"], **flags, "answers": a},
+                                             {"schemes": ["b"], **flags, "answers": b}],
+                                "mixer": None, "op": copy.deepcopy(op)})
+        return out
     mixer_good = {"get_volume": ["int", 40], "set_volume": ["bool", True], "get_mute": ["bool", False],
                   "set_mute": ["bool", True]}
     for op, method in [({"name": "get_volume"}, "get_volume"), ({"name": "set_volume", "volume": 30}, "set_volume"),
